@@ -100,7 +100,7 @@ def hypergraph_weights(U, edges, absent=99):
         ops.append(("remove_node", n, False))
         ops.append(("remove_node", n, True))
     ops.append(("set_weight", (U[0], absent), None, 2))
-    big = [e for e in edges if len(e) >= 2]
+    big = [e for e in edges if len(e) >= 2] + [e for e in edges if len(e) < 2]
     if len(big) >= 2:
         ops.append(("add_edges", (big[0], big[1]), None, (2, 1), None))
         ops.append(("add_edges", (big[0], tuple(reversed(big[0]))), None, (1, 1), None))
@@ -184,4 +184,137 @@ def hypergraph_metadata(U, edges, absent=99, rich=False):
         ops.append(("set_attr_hg", "x", 1))
     ops.append(("clear",))
     ops.append(("copy",))
+    return ops
+
+
+# ---------------------------------------------------------------------------------------------
+# generic alphabets over records (raw, extra) for the directed / temporal / multiplex containers
+# ---------------------------------------------------------------------------------------------
+def unsorted_raw(kind_name, raw):
+    """a different listing of the same record (or None)"""
+    if kind_name == "DirectedHypergraph":
+        s, t = raw
+        if len(s) > 1 or len(t) > 1:
+            return (tuple(reversed(s)), tuple(reversed(t)))
+        return None
+    if len(raw) == 2:
+        return tuple(reversed(raw))
+    if len(raw) > 2:
+        return raw[-1:] + raw[:-1]
+    return None
+
+
+def record_structure(kind_name, U, records, absent=99, absent_record=None, has_clear=True, has_copy=True,
+                     batches=True, invalid_extras=(), has_set_weight=True, hg_attr=True):
+    ops = []
+    for n in U:
+        ops.append(("add_node", n, None))
+    for raw, x in records:
+        ops.append(("add_edge", raw, x, None, None))
+    seen = 0
+    for raw, x in records:
+        r = unsorted_raw(kind_name, raw)
+        if r is not None:
+            ops.append(("add_edge", r, x, None, None))
+            if seen < 2:
+                ops.append(("remove_edge", r, x))
+            seen += 1
+    for raw, x in records:
+        ops.append(("remove_edge", raw, x))
+    for n in U:
+        ops.append(("remove_node", n, False))
+        ops.append(("remove_node", n, True))
+    ops.append(("remove_node", absent, False))
+    if absent_record is not None:
+        ops.append(("remove_edge",) + tuple(absent_record))
+    raw0, x0 = records[0]
+    ops.append(("add_edge", raw0, x0, 2, None))  # weight 2: rejected when unweighted
+    for bad in invalid_extras:
+        ops.append(("add_edge", raw0, bad, None, None))
+    if has_set_weight:
+        rawl, xl = records[-1]
+        ops.append(("set_weight", rawl, xl, 3))
+        ops.append(("set_weight", rawl, xl, 1))
+    if hg_attr:
+        ops.append(("set_attr_hg", "x", 1))
+    if has_clear:
+        ops.append(("clear",))
+    if has_copy:
+        ops.append(("copy",))
+    if batches:
+        (r1, x1), (r2, x2) = records[0], records[-1]
+        ops.append(("add_nodes", (U[0], U[1]), None))
+        ops.append(("add_edges", (r1, r2), (x1, x2) if x1 is not None else None, None, None))
+        u = unsorted_raw(kind_name, r2)
+        if u is not None:
+            ops.append(("add_edges", (r2, u), (x2, x2) if x2 is not None else None, None, None))
+    return ops
+
+
+def record_weights(kind_name, U, records, absent_record=None, has_clear=True, batch_pairs=()):
+    ops = []
+    for n in U:
+        ops.append(("add_node", n, None))
+    for raw, x in records:
+        for w in (None, 1, 2):
+            ops.append(("add_edge", raw, x, w, None))
+        r = unsorted_raw(kind_name, raw)
+        if r is not None:
+            ops.append(("add_edge", r, x, 2, None))
+            ops.append(("set_weight", r, x, 2))
+        ops.append(("remove_edge", raw, x))
+        ops.append(("set_weight", raw, x, 1))
+        ops.append(("set_weight", raw, x, 3))
+    for n in U:
+        ops.append(("remove_node", n, False))
+        ops.append(("remove_node", n, True))
+    if absent_record is not None:
+        ops.append(("set_weight",) + tuple(absent_record) + (2,))
+    for (r1, x1), (r2, x2) in batch_pairs:
+        xs = (x1, x2) if x1 is not None or x2 is not None else None
+        ops.append(("add_edges", (r1, r2), xs, (2, 1), None))
+        ops.append(("add_edges", (r1, r2), xs, (2,), None))  # length mismatch -> rejected
+    if has_clear:
+        ops.append(("clear",))
+    return ops
+
+
+def record_metadata(kind_name, U, records, absent=99, has_node_set=True, has_edge_set=True, has_clear=True,
+                    has_copy=True, add_nodes_md=True, rich=False):
+    ops = []
+    for n in U:
+        ops.append(("add_node", n, None))
+        ops.append(("add_node", n, MD1))
+        if has_node_set:
+            ops.append(("set_node_metadata", n, ()))
+        ops.append(("set_attr_node", n, "k", 1))
+        ops.append(("rm_attr_node", n, "k"))
+        ops.append(("remove_node", n, False))
+        ops.append(("remove_node", n, True))
+        if rich and has_node_set:
+            ops.append(("set_node_metadata", n, MD2))
+    for raw, x in records:
+        ops.append(("add_edge", raw, x, None, None))
+        ops.append(("add_edge", raw, x, None, MD1))
+        if has_edge_set:
+            ops.append(("set_edge_metadata", raw, x, MD2))
+        ops.append(("set_attr_edge", raw, x, "k", 1))
+        ops.append(("set_attr_edge", raw, x, "k", 2))
+        ops.append(("rm_attr_edge", raw, x, "k"))
+        ops.append(("remove_edge", raw, x))
+    for raw, x in records:
+        r = unsorted_raw(kind_name, raw)
+        if r is not None:
+            ops.append(("add_edge", r, x, None, MD2))
+            ops.append(("set_attr_edge", r, x, "k", 2))
+            ops.append(("rm_attr_edge", r, x, "k"))
+            break
+    if add_nodes_md:
+        ops.append(("add_nodes", (U[0], U[1]), ((U[0], MD1), (U[1], MD1))))
+        ops.append(("add_nodes", (U[0], U[1]), ((U[0], MD1),)))
+    ops.append(("set_attr_node", absent, "k", 1))
+    if has_clear:
+        ops.append(("clear",))
+    if has_copy:
+        ops.append(("copy",))
     return ops
